@@ -14,12 +14,15 @@
      round_end  quiescence: exactly-once accounting
      log        a log record captured at the section's level (leak scan result)
      stats      the server's statistics getters, compared with the traffic of the section
+     bulk       many invalid datagrams from one socket, summarised (count consumed, replies seen, panic, wedge)
      publish    the status timer's step run on the real server; what its queue then held (see TNext)
-     grease_end fault-injection section end: failing share within 6 sigma of p *)
+     grease_batch one signed batch of a fault-injection section (from the hooks): responses, fault-injected responses
+     grease_end fault-injection section end: failing share within 6 sigma of p; decisions not correlated within batches *)
 EXTENDS ServerAbs, Json, IOUtils, TLCExt, Integers
 
 Rec_ == ndJsonDeserialize(IOEnv.TRACE)
-VARIABLES l, fault      \* fault = [p: configured fault percentage, b: configured batch_size (0 = unknown)] of the section
+VARIABLES l, fault      \* fault = [p: configured fault percentage, b: configured batch_size (0 = unknown),
+                        \*          allg: batches of >= 8 responses of the section in which EVERY response was fault-injected]
 tvars == <<reqs, roots, totals, l, fault>>
 
 Bad(reasons) == IF reasons = {} THEN TRUE ELSE TLCSet(2, TLCGet(2) \o <<[i |-> l, why |-> reasons]>>)
@@ -29,7 +32,7 @@ ZeroTotals == [arrivals |-> 0, replies |-> 0, bytes |-> 0, greased |-> 0, failin
 \* the harness's client sockets are bound to 127.0.0.(1 + i % 200); the unroutable source is 127.0.0.1
 IpOf(sock) == IF sock = 9999 THEN 1 ELSE 1 + (sock % 200)
 
-TInit == /\ l = 1 /\ TLCSet(2, <<>>) /\ reqs = NoReqs /\ roots = {} /\ totals = ZeroTotals /\ fault = [p |-> 0, b |-> 0]
+TInit == /\ l = 1 /\ TLCSet(2, <<>>) /\ reqs = NoReqs /\ roots = {} /\ totals = ZeroTotals /\ fault = [p |-> 0, b |-> 0, allg |-> 0]
 
 Rp(e) == [sock |-> e.sock, len |-> e.len, parse |-> e.parse, v |-> e.v, frame_ok |-> e.frame_ok,
           nonce_reqs |-> SetOf(e.nonce_reqs), proof_reqs |-> SetOf(e.proof_reqs), has_nonce |-> e.has_nonce,
@@ -45,7 +48,7 @@ TNext ==
     /\ l <= Len(Rec_)
     /\ LET e == Rec_[l] IN
        CASE e.ev = "new" -> /\ Bad(IF e.announced_ok THEN {} ELSE {"announced_key"})
-                            /\ reqs' = NoReqs /\ roots' = {} /\ totals' = ZeroTotals /\ fault' = [p |-> e.fault, b |-> e.batch]
+                            /\ reqs' = NoReqs /\ roots' = {} /\ totals' = ZeroTotals /\ fault' = [p |-> e.fault, b |-> e.batch, allg |-> 0]
          [] e.ev = "round" -> (IF "discarded" \in DOMAIN e THEN UNCHANGED <<reqs, roots, totals>> ELSE RoundBegin) /\ UNCHANGED fault
          [] e.ev = "arrive" -> Receive(e.sock, e.f, ~("unroutable" \in DOMAIN e)) /\ UNCHANGED fault
          [] e.ev = "pumped" -> /\ Bad((IF e.panic THEN {"panic"} ELSE {}) \cup (IF e.wedged THEN {"wedged"} ELSE {}))
@@ -64,6 +67,11 @@ TNext ==
                      \cup (IF e.responses = totals.replies THEN {} ELSE {"stats_responses"})
                      \cup (IF e.bytes = totals.bytes THEN {} ELSE {"stats_bytes"}))
               /\ UNCHANGED <<reqs, roots, totals, fault>>
+         [] e.ev = "bulk" ->      \* e.n invalid datagrams consumed without per-datagram events: none may be answered
+              /\ Bad((IF e.panic THEN {"panic"} ELSE {}) \cup (IF e.wedged THEN {"wedged"} ELSE {})
+                     \cup (IF e.replies > 0 THEN {"reply_to_malformed"} ELSE {}))
+              /\ totals' = [totals EXCEPT !.arrivals = @ + e.n, !.socks = @ \cup {5}]
+              /\ UNCHANGED <<reqs, roots, fault>>
          [] e.ev = "publish" ->
               \* Server::send_client_stats (the status timer's step) on the REAL server, then everything popped from its queue:
               \* with the per-client recorder a snapshot is pushed iff anything was recorded since the last publication; it
@@ -80,8 +88,15 @@ TNext ==
                           THEN {} ELSE {"stats_publication"})
               /\ totals' = (IF expectPush THEN ZeroTotals ELSE totals)
               /\ UNCHANGED <<reqs, roots, fault>>
+         [] e.ev = "grease_batch" ->     \* one signed batch: how many responses it had and how many of them were fault-injected
+              /\ fault' = [fault EXCEPT !.allg = @ + (IF e.n >= 8 /\ e.greased = e.n THEN 1 ELSE 0)]
+              /\ UNCHANGED <<reqs, roots, totals>>
          [] e.ev = "grease_end" ->
-              /\ Bad(IF totals.replies >= e.min_replies /\ GreaseOk(totals.failing, totals.replies, fault.p) THEN {} ELSE {"fault_rate"})
+              \* the fault decision is made per RESPONSE, independently: with p <= 50 a batch of >= 8 responses that are ALL
+              \* fault-injected has probability <= 0.4 %; over the few hundred batches of a section more than 8 of them means the
+              \* decisions are correlated (e.g. one coin per batch), whatever the overall share
+              /\ Bad((IF totals.replies >= e.min_replies /\ GreaseOk(totals.failing, totals.replies, fault.p) THEN {} ELSE {"fault_rate"})
+                     \cup (IF fault.p <= 50 /\ fault.allg > 8 THEN {"fault_not_per_response"} ELSE {}))
               /\ UNCHANGED <<reqs, roots, totals, fault>>
          [] OTHER -> Bad({"unknown_event"}) /\ UNCHANGED <<reqs, roots, totals, fault>>
     /\ l' = l + 1
